@@ -4,7 +4,9 @@ use crate::util::*;
 use crate::{Opts, Outcome};
 use std::collections::HashMap;
 
-pub fn c07_one(recs: &[Vec<u8>], k: usize, threads: usize, mem: f64, acgt: bool) -> Option<Vec<(String, String)>> {
+pub fn c07_one(recs: &[Vec<u8>], k: usize, threads: usize, mem: f64, acgt: bool) -> Option<Vec<(String, String)>> { c07_run(recs, k, threads, mem, acgt, true) }
+/// `delete` = the argument of merge(): whether the temporary chunk files are removed; the merged counts are the same either way
+pub fn c07_run(recs: &[Vec<u8>], k: usize, threads: usize, mem: f64, acgt: bool, delete: bool) -> Option<Vec<(String, String)>> {
     let sc = Scratch::new("ctr");
     let inp = sc.path(in_name());
     let outd = sc.path("out");
@@ -17,7 +19,7 @@ pub fn c07_one(recs: &[Vec<u8>], k: usize, threads: usize, mem: f64, acgt: bool)
         c.set_max_memory(mem);
         c.set_acgt_output(acgt);
         c.count();
-        c.merge(true);
+        c.merge(delete);
     });
     let mut want: HashMap<String, u64> = HashMap::new();
     for r in recs { for (_, f, rv) in kmers_spec(r, k) { let c = f.min(rv); *want.entry(if acgt { text_of(c, k) } else { c.to_string() }).or_insert(0) += 1; } }
@@ -38,7 +40,7 @@ pub fn c07_one(recs: &[Vec<u8>], k: usize, threads: usize, mem: f64, acgt: bool)
                 let extra: Vec<&String> = got.keys().filter(|k| !want.contains_key(*k)).take(3).collect();
                 w = format!("counts differ: {} lines, {} expected; wrong/missing {:?}, unexpected {:?}", got.len(), want.len(), miss, extra);
             }
-            if w.is_empty() {
+            if w.is_empty() && delete {
                 let left: Vec<String> = std::fs::read_dir(&outd).unwrap().filter_map(|e| e.ok()).map(|e| e.file_name().to_string_lossy().to_string()).filter(|n| n.starts_with("temp_kmers")).collect();
                 if !left.is_empty() { w = format!("temporary chunk files survive the merge: {:?}", &left[..left.len().min(3)]); }
             }
@@ -47,7 +49,7 @@ pub fn c07_one(recs: &[Vec<u8>], k: usize, threads: usize, mem: f64, acgt: bool)
     };
     if why.is_empty() { None } else {
         Some(vec![("records".into(), recs.iter().map(|r| show(r)).collect::<Vec<_>>().join("|")), ("k".into(), k.to_string()), ("threads".into(), threads.to_string()),
-                  ("mem".into(), format!("{:e}", mem)), ("acgt".into(), acgt.to_string()), ("why".into(), why)])
+                  ("mem".into(), format!("{:e}", mem)), ("acgt".into(), acgt.to_string()), ("delete".into(), delete.to_string()), ("why".into(), why)])
     }
 }
 
@@ -55,7 +57,8 @@ pub fn c07(o: &Opts) -> Outcome {
     let mut cases = 0u64;
     if let Some(inp) = &o.input {
         let recs: Vec<Vec<u8>> = inp["records"].split('|').map(unshow).collect();
-        return Outcome { cases: 1, witness: c07_one(&recs, inp["k"].parse().unwrap(), inp["threads"].parse().unwrap(), inp["mem"].parse().unwrap(), inp["acgt"] == "true") };
+        let delete = inp.get("delete").map(|d| d == "true").unwrap_or(true);
+        return Outcome { cases: 1, witness: c07_run(&recs, inp["k"].parse().unwrap(), inp["threads"].parse().unwrap(), inp["mem"].parse().unwrap(), inp["acgt"] == "true", delete) };
     }
     let mut rng = Rng(o.seed.wrapping_mul(0x9E3779B97F4A7C15) | 1);
     // extreme multiplicity (one k-mer more than 2^16 times), and inputs with fewer distinct k-mers than partitions
@@ -112,6 +115,17 @@ pub fn c07(o: &Opts) -> Outcome {
                 if let Some(mut w) = c07_one(&recs, 12, threads, 6.0, false) {
                     for kv in w.iter_mut() { if kv.0 == "records" { kv.1 = format!("<1300 random records of 1000 bases, seed {}>", o.seed); } }
                     return Outcome { cases, witness: Some(w) };
+                }
+            }
+        }
+        // many partitions (more than ten: partition numbers with two digits) with and without removal of the chunk files
+        {
+            let mut r2 = Rng(o.seed.wrapping_mul(0x2545F4914F6CDD1D) | 9);
+            let recs: Vec<Vec<u8>> = (0..40).map(|_| random_seq(&mut r2, 120, 0)).collect();
+            for threads in [11usize, 12, 16] {
+                for delete in [false, true] {
+                    cases += 1;
+                    if let Some(w) = c07_run(&recs, 8, threads, 6.0, false, delete) { return Outcome { cases, witness: Some(w) }; }
                 }
             }
         }
